@@ -18,6 +18,8 @@ Inductive op :=
 (* angle as written (degrees), then cos, sin, tan as Go computed them *)
 Inductive trig_entry := TE (a c s t : Q).
 
+Inductive ctrig_entry := CTE (v : Q) (u : angle_unit) (c s t : Q).
+
 Inductive case :=
 | CRound (x r : Q)                         (* float32(x) = r, x a float64 *)
 | CArith (o : N) (a b r : Q)               (* 0 + 1 - 2 * 3 /  on float32 *)
@@ -28,6 +30,9 @@ Inductive case :=
 | CDet (t : T) (d : Q)
 | COps (t : T) (ops : list op) (out : T)   (* in-place methods, in order *)
 | CCss (g : box_geom) (fs : list tfun) (out : T)
+| CCssSrc (tbl : list ctrig_entry) (g : box_geom) (fs : list css_src) (has : bool) (out : T)
+    (* end to end: functions as written in the style sheet, the laid-out border box,
+       computed transform-origin; has/out = the Transform call the backend received *)
 | CSvg (tr : list trig_entry) (l : list svg_src) (out : T)
 | CViewbox (p : par) (w h vx vy vw vh : Q) (o1 o2 o3 o4 : Q).
 
@@ -38,14 +43,14 @@ Definition teqb (t u : T) : bool :=
 Definition tlist (t : T) : list Q := [A t; B t; C t; D t; E t; F t].
 Definition all_in_range (l : list Q) : bool := forallb in_range32 l.
 
-Definition do_op (t : T) (o : op) : T :=
+Definition do_op (ar : arith) (t : T) (o : op) : T :=
   match o with
-  | OTranslate tx ty => translate f32 t tx ty
-  | OScale sx sy => scale f32 t sx sy
-  | ORotate c s => rotate_cs f32 t c s
-  | OSkew tx ty => skew_tt f32 t tx ty
-  | OLeft u => left_mult_by f32 t u
-  | ORight u => right_mult_by f32 t u
+  | OTranslate tx ty => translate ar t tx ty
+  | OScale sx sy => scale ar t sx sy
+  | ORotate c s => rotate_cs ar t c s
+  | OSkew tx ty => skew_tt ar t tx ty
+  | OLeft u => left_mult_by ar t u
+  | ORight u => right_mult_by ar t u
   end.
 
 Definition trig_of (tbl : list trig_entry) : trig :=
@@ -54,35 +59,50 @@ Definition trig_of (tbl : list trig_entry) : trig :=
            | None => (1, 0, 0)
            end.
 
+Definition unit_eqb (u v : angle_unit) : bool :=
+  match u, v with Deg, Deg | Grad, Grad | Rad, Rad | Turn, Turn => true | _, _ => false end.
+Definition ctrig_of (tbl : list ctrig_entry) : ctrig :=
+  fun v u => match find (fun e => let 'CTE v' u' _ _ _ := e in Qeq_bool v' v && unit_eqb u' u) tbl with
+             | Some (CTE _ _ c s t) => (c, s, t)
+             | None => (1, 0, 0)
+             end.
+
 Definition arith_op (o : N) : Q -> Q -> Q :=
   match o with
   | 0%N => add f32 | 1%N => sub f32 | 2%N => mul f32 | _ => div f32
   end.
 
-(* model observable, flattened *)
-Definition model_out (c : case) : list Q :=
+(* model observable, flattened; ar = f32 for the bit-exact comparison,
+   ar = exactQ for the tolerance fallback *)
+Definition model_out_ar (ar : arith) (c : case) : list Q :=
   match c with
   | CRound x _ => [rnd32 x]
   | CArith o a b _ => [arith_op o a b]
   | CMulChain ts _ =>
       match ts with [] => tlist identity
-      | t :: r => tlist (fold_left (mmul f32) r t) end
-  | CMul3 r s t _ => tlist (mul3 f32 r s t)
-  | CInvert t _ _ => match invert f32 t with Some u => 1 :: tlist u | None => [0] end
-  | CApply t x y _ _ => let '(a, b) := apply f32 t x y in [a; b]
-  | CDet t _ => [determinant f32 t]
-  | COps t ops _ => tlist (fold_left do_op ops t)
-  | CCss g fs _ => tlist (css_matrix f32 g fs)
-  | CSvg tbl l _ => tlist (svg_aggregate f32 (trig_of tbl) l)
+      | t :: r => tlist (fold_left (mmul ar) r t) end
+  | CMul3 r s t _ => tlist (mul3 ar r s t)
+  | CInvert t _ _ => match invert ar t with Some u => 1 :: tlist u | None => [0] end
+  | CApply t x y _ _ => let '(a, b) := apply ar t x y in [a; b]
+  | CDet t _ => [determinant ar t]
+  | COps t ops _ => tlist (fold_left (do_op ar) ops t)
+  | CCss g fs _ => tlist (css_matrix ar g fs)
+  | CCssSrc tbl g fs _ _ =>
+      let m := css_matrix ar g (map (css_normalise (ctrig_of tbl)) fs) in
+      (* draw.go:252-259: nothing is sent when the determinant is 0 *)
+      if Qeq_bool (determinant ar m) 0 then [0] else 1 :: tlist m
+  | CSvg tbl l _ => tlist (svg_aggregate ar (trig_of tbl) l)
   | CViewbox p w h vx vy vw vh _ _ _ _ =>
-      let '(a, b, c, d) := viewbox_transform f32 p w h vx vy vw vh in [a; b; c; d]
+      let '(a, b, c, d) := viewbox_transform ar p w h vx vy vw vh in [a; b; c; d]
   end.
+Definition model_out := model_out_ar f32.
 
 Definition impl_out (c : case) : list Q :=
   match c with
   | CRound _ r => [r]
   | CArith _ _ _ r => [r]
   | CMulChain _ out | CMul3 _ _ _ out | COps _ _ out | CCss _ _ out | CSvg _ _ out => tlist out
+  | CCssSrc _ _ _ has out => if has then 1 :: tlist out else [0]
   | CInvert _ ok out => if ok then 1 :: tlist out else [0]
   | CApply _ _ _ ox oy => [ox; oy]
   | CDet _ d => [d]
@@ -96,10 +116,29 @@ Fixpoint qlist_eqb (l1 l2 : list Q) : bool :=
   | _, _ => false
   end.
 
+(* tolerance fallback: the implementation differs bit-for-bit from the float32
+   instance; is it at least within 2^-10 (relative to the largest entry) of the
+   exact-rational instance, i.e. of the specification?  If so only the tie is
+   broken (code 3), otherwise the input is a failing input (code 1). *)
+Fixpoint maxabs (l : list Q) : Q :=
+  match l with [] => 0 | x :: r => let m := maxabs r in if Qle_bool (Qabs.Qabs x) m then m else Qabs.Qabs x end.
+Fixpoint qlist_close (tol : Q) (l1 l2 : list Q) : bool :=
+  match l1, l2 with
+  | [], [] => true
+  | a :: r1, b :: r2 => Qle_bool (Qabs.Qabs (a - b)) tol && qlist_close tol r1 r2
+  | _, _ => false
+  end.
+
 Definition check (c : case) : N :=
   let m := model_out c in
   if negb (all_in_range m) then 2%N
-  else if qlist_eqb m (impl_out c) then 0%N else 1%N.
+  else if qlist_eqb m (impl_out c) then 0%N
+  else match c with
+       | CRound _ _ | CArith _ _ _ _ => 1%N
+       | _ => let e := model_out_ar exactQ c in
+              let tol := (1 # 1024) * (1 + maxabs e) in
+              if qlist_close tol e (impl_out c) then 3%N else 1%N
+       end.
 
 Fixpoint mismatches (i : N) (cs : list case) : list (N * N) :=
   match cs with
